@@ -1,6 +1,7 @@
 package checks
 
 import (
+	"bytes"
 	"encoding/json"
 	"fmt"
 	"strings"
@@ -8,6 +9,7 @@ import (
 	"github.com/dave/jennifer/jen"
 
 	"verif/internal/ev"
+	"verif/internal/imp"
 	"verif/internal/jh"
 	"verif/internal/statespace"
 )
@@ -22,10 +24,13 @@ func init() {
 
 const (
 	c20Pool  = 4
-	c20Kinds = 5 // Id, Dot, Add x3, Call, Clone
+	c20Kinds = 6 // Id, Dot, Add x3, Call, Clone, RenderWithFile(shared)
 )
 
-var c20KindNames = []string{"Id", "Dot", "Add3", "Call", "Clone"}
+var c20KindNames = []string{"Id", "Dot", "Add3", "Call", "Clone", "RenderWithSharedFile"}
+
+// c20NullRoot selects the original the pool starts with: Id(r), or an empty one (Null()).
+var c20NullRoot bool
 
 type c20Model struct {
 	parent int
@@ -37,6 +42,7 @@ type c20World struct {
 	stmts  []*jen.Statement
 	model  []*c20Model
 	lastOp int
+	shared *jen.File // one File used by every RenderWithFile of the history
 }
 
 func c20OpName(op int) string {
@@ -79,9 +85,14 @@ func (w *c20World) accept(i int) map[string]bool {
 
 // c20Build replays a history; ok=false if the last operation is not enabled.
 func c20Build(hist []int) (w *c20World, ok bool) {
-	w = &c20World{lastOp: -1}
-	w.stmts = append(w.stmts, jen.Id("r"))
-	w.model = append(w.model, &c20Model{parent: -1, own: []string{"r"}})
+	w = &c20World{lastOp: -1, shared: jen.NewFile("")}
+	if c20NullRoot {
+		w.stmts = append(w.stmts, jen.Null())
+		w.model = append(w.model, &c20Model{parent: -1})
+	} else {
+		w.stmts = append(w.stmts, jen.Id("r"))
+		w.model = append(w.model, &c20Model{parent: -1, own: []string{"r"}})
+	}
 	for _, op := range hist {
 		si, kind := op/c20Kinds, op%c20Kinds
 		if si >= len(w.stmts) {
@@ -113,10 +124,23 @@ func c20Build(hist []int) (w *c20World, ok bool) {
 			c := s.Clone()
 			w.stmts = append(w.stmts, c)
 			w.model = append(w.model, &c20Model{parent: si, snap: w.accept(si)})
+		case 5:
+			c20WithFile(s, w.shared)
 		}
 		w.lastOp = op
 	}
 	return w, true
+}
+
+// c20WithFile renders a fragment with a File (formatted; invalid fragments give an error whose
+// text contains the raw rendering - either way the full outcome is compared).
+func c20WithFile(s *jen.Statement, f *jen.File) string {
+	o := jh.Catch(func() (string, error) {
+		var b bytes.Buffer
+		err := s.RenderWithFile(&b, f)
+		return b.String(), err
+	})
+	return o.String()
 }
 
 func c20Render(s *jen.Statement) string {
@@ -129,6 +153,7 @@ func c20Render(s *jen.Statement) string {
 
 func (w *c20World) key() string {
 	var sb strings.Builder
+	sb.WriteString(imp.Key(w.shared))
 	for i, s := range w.stmts {
 		fmt.Fprintf(&sb, "%d:%d:%d:%s|", w.model[i].parent, len(*s), cap(*s), c20Render(s))
 	}
@@ -152,6 +177,12 @@ func c20Invariant(w *c20World) string {
 			return fmt.Sprintf("s%d (%s, len %d cap %d) renders %q, acceptable: %s", i, kind, len(*s), cap(*s), got, strings.Join(want, " or "))
 		}
 	}
+	// rendering with the File shared by the history must equal rendering with a fresh File
+	for i, s := range w.stmts {
+		if a, b := c20WithFile(s, w.shared), c20WithFile(s, jen.NewFile("")); a != b {
+			return fmt.Sprintf("s%d rendered with the File shared by the history gives %q, with a fresh File %q", i, a, b)
+		}
+	}
 	if w.lastOp >= 0 && w.lastOp%c20Kinds == 4 {
 		c := len(w.stmts) - 1
 		if a, b := c20Render(w.stmts[c]), c20Render(w.stmts[w.model[c].parent]); a != b {
@@ -170,63 +201,167 @@ func runC20(r *ev.Recorder) {
 		r.SetDeadline(5 * 60 * 1e9)
 	}
 	r.Rule = fmt.Sprintf("explicit-state BFS over the real Statement API: pool of <= %d statements (one original Id(r) plus clones, clones of clones included); operations on any pool member: "+
-		"Id (1 token), Dot (2), Add(x,y,z) (3), Call (1 group), Clone; all histories of length <= %d, de-duplicated on (parent, len, cap, raw rendering) of every statement. "+
+		"Id (1 token), Dot (2), Add(x,y,z) (3), Call (1 group), Clone, RenderWithFile with one File shared by the whole history; two roots (Id(r) and an empty Null() original, the latter 2 levels less deep); all histories of length <= %d, de-duplicated on (parent, len, cap, raw rendering) of every statement. "+
 		"Invariant in every state (list model): an original renders exactly its own tokens; a clone renders its parent (as of clone time or as of now - the property leaves that open) followed by exactly its own tokens in order; "+
-		"a fresh clone renders like its original. Slice growth 1->2->4->8 makes cap > len reachable within 3 appends", c20Pool, depth)
+		"a fresh clone renders like its original; every statement rendered with the shared File equals its rendering with a fresh File. Plus 1,820 nesting cases: originals of 1..13 items, two clones with tails of 0..3 items, one nested as a call argument inside the other at every position, rendered twice. Slice growth 1->2->4->8 makes cap > len reachable within 3 appends", c20Pool, depth)
 	r.Assume = []string{"both snapshot and live-view semantics of Clone are accepted (the property does not choose)", "histories longer than the depth bound are outside the bound"}
 
-	res := statespace.Search(statespace.System{
-		NumOps:   c20Pool * c20Kinds,
-		MaxDepth: depth,
-		Stop:     r.Expired,
-		Step: func(hist []int) (string, bool) {
-			w, ok := c20Build(hist)
-			if !ok {
-				return "", false
-			}
-			return w.key(), true
-		},
-		Invariant: func(hist []int) {
-			w, _ := c20Build(hist)
-			r.Eval(1)
-			spare := false
-			for _, s := range w.stmts {
-				if cap(*s) > len(*s) {
-					spare = true
+	var states, transitions int64
+	var perDepth [][]int64
+	for _, nullRoot := range []bool{false, true} {
+		c20NullRoot = nullRoot
+		d := depth
+		if nullRoot {
+			d = depth - 2 // the second root is there for the interaction of emptiness with renders
+		}
+		res := statespace.Search(statespace.System{
+			NumOps:   c20Pool * c20Kinds,
+			MaxDepth: d,
+			Stop:     r.Expired,
+			Step: func(hist []int) (string, bool) {
+				w, ok := c20Build(hist)
+				if !ok {
+					return "", false
+				}
+				return w.key(), true
+			},
+			Invariant: func(hist []int) {
+				w, _ := c20Build(hist)
+				r.Eval(1)
+				spare := false
+				for _, s := range w.stmts {
+					if cap(*s) > len(*s) {
+						spare = true
+					}
+				}
+				if len(w.stmts) > 1 && spare {
+					r.Distinct(fmt.Sprint(nullRoot) + w.key())
+				}
+				if len(hist) == 5 && r.WantSample() {
+					r.Sample(map[string]any{"null_root": nullRoot, "history": c20Hist(hist), "statements": w.render()})
+				}
+				if msg := c20Invariant(w); msg != "" {
+					r.Violate(ev.Violation{Signature: "c20:" + c20KindNames[hist[len(hist)-1]%c20Kinds], What: fmt.Sprintf("null root %v, after %v: %s", nullRoot, c20Hist(hist), msg),
+						Case: ev.JSON(c20Case{NullRoot: nullRoot, Hist: hist}), Detail: msg})
+				}
+			},
+		})
+		states += res.States
+		transitions += res.Transitions
+		perDepth = append(perDepth, res.PerDepth)
+		if !res.Complete {
+			r.NotExhaustive("search stopped before the depth bound")
+		}
+	}
+	c20NullRoot = false
+	r.Note("states", states)
+	r.Note("transitions", transitions)
+	r.Note("traces_validated_against_impl", transitions)
+	r.Note("depth", depth)
+	r.Note("states_per_depth_by_root", perDepth)
+	r.Note("non_trivial_rule", "distinct_nontrivial counts states with at least one clone and at least one statement with spare capacity (cap > len), plus nesting cases")
+
+	// nested clones: two clones of one original (of every length 1..13, so with and without spare
+	// capacity), each with its own tail, one nested as a call argument inside the other's tail
+	if r.Violations() > 0 {
+		// a tree whose clones share storage can turn a nested clone into a cycle, and rendering a
+		// cycle overflows the stack (unrecoverable): the search above has already reported
+		r.NotExhaustive("nesting cases skipped because the search already found violations")
+		return
+	}
+	for l := 1; l <= 13; l++ {
+		for ta := 0; ta <= 3; ta++ {
+			for tb := 0; tb <= 3; tb++ {
+				for pos := 0; pos <= ta; pos++ {
+					msg := c20Nested(l, ta, tb, pos)
+					r.Eval(1)
+					desc := fmt.Sprintf("original of %d items, clone A with %d own items, clone B with %d own items nested in A after A's item %d", l, ta, tb, pos)
+					r.Distinct(desc)
+					if msg != "" {
+						r.Violate(ev.Violation{Signature: "c20:nested-clones", What: desc + ": " + msg, Case: ev.JSON(c20Case{Nested: []int{l, ta, tb, pos}}), Detail: msg})
+					}
 				}
 			}
-			if len(w.stmts) > 1 && spare {
-				r.Distinct(w.key())
-			}
-			if len(hist) == 5 && r.WantSample() {
-				r.Sample(map[string]any{"history": c20Hist(hist), "state": w.key()})
-			}
-			if msg := c20Invariant(w); msg != "" {
-				r.Violate(ev.Violation{Signature: "c20:" + c20KindNames[hist[len(hist)-1]%c20Kinds], What: fmt.Sprintf("after %v: %s", c20Hist(hist), msg),
-					Case: ev.JSON(hist), Detail: msg})
-			}
-		},
-	})
-	r.Note("states", res.States)
-	r.Note("transitions", res.Transitions)
-	r.Note("traces_validated_against_impl", res.Transitions)
-	r.Note("depth_completed", res.Depth)
-	r.Note("states_per_depth", res.PerDepth)
-	r.Note("non_trivial_rule", "distinct_nontrivial counts states with at least one clone and at least one statement with spare capacity (cap > len)")
-	if !res.Complete {
-		r.NotExhaustive("search stopped before the depth bound")
+		}
 	}
 }
 
+// c20Nested builds h (l items), a = h.Clone()+ta items, b = h.Clone()+tb items, nests b as a call
+// argument inside a after a's pos-th own item, and checks a, b and h against the list model.
+func c20Nested(l, ta, tb, pos int) string {
+	h := jen.Id("h0")
+	hw := []string{"h0"}
+	for i := 1; i < l; i++ {
+		n := fmt.Sprintf("h%d", i)
+		h.Id(n)
+		hw = append(hw, n)
+	}
+	hs := strings.Join(hw, " ")
+	b := h.Clone()
+	bw := []string{hs}
+	for i := 0; i < tb; i++ {
+		n := fmt.Sprintf("b%d", i)
+		b.Id(n)
+		bw = append(bw, n)
+	}
+	bs := strings.Join(bw, " ")
+	a := h.Clone()
+	aw := []string{hs}
+	for i := 0; i <= ta; i++ {
+		if i == pos {
+			a.Call(b)
+			aw = append(aw, "("+bs+")")
+		}
+		if i < ta {
+			n := fmt.Sprintf("a%d", i)
+			a.Id(n)
+			aw = append(aw, n)
+		}
+	}
+	as := strings.Join(aw, " ")
+	for round := 0; round < 2; round++ {
+		if got := c20Render(a); got != as {
+			return fmt.Sprintf("outer clone renders %q, want %q (render %d)", got, as, round+1)
+		}
+		if got := c20Render(b); got != bs {
+			return fmt.Sprintf("nested clone renders %q, want %q (after the outer one was rendered, render %d)", got, bs, round+1)
+		}
+		if got := c20Render(h); got != hs {
+			return fmt.Sprintf("original renders %q, want %q", got, hs)
+		}
+	}
+	return ""
+}
+
+type c20Case struct {
+	NullRoot bool  `json:"null_root"`
+	Hist     []int `json:"history,omitempty"`
+	Nested   []int `json:"nested,omitempty"`
+}
+
+func (w *c20World) render() []string {
+	var out []string
+	for _, s := range w.stmts {
+		out = append(out, c20Render(s))
+	}
+	return out
+}
+
 func replayC20(raw json.RawMessage) (bool, string) {
-	var hist []int
-	if err := json.Unmarshal(raw, &hist); err != nil {
+	var c c20Case
+	if err := json.Unmarshal(raw, &c); err != nil {
 		return true, "bad case"
 	}
-	w, ok := c20Build(hist)
+	if len(c.Nested) == 4 {
+		msg := c20Nested(c.Nested[0], c.Nested[1], c.Nested[2], c.Nested[3])
+		return msg == "", fmt.Sprintf("nested clones %v: %s", c.Nested, msg)
+	}
+	c20NullRoot = c.NullRoot
+	defer func() { c20NullRoot = false }()
+	w, ok := c20Build(c.Hist)
 	if !ok {
 		return true, "history not enabled on this tree"
 	}
 	msg := c20Invariant(w)
-	return msg == "", fmt.Sprintf("history %v: %s", c20Hist(hist), msg)
+	return msg == "", fmt.Sprintf("null root %v, history %v: %s", c.NullRoot, c20Hist(c.Hist), msg)
 }
